@@ -9,6 +9,8 @@ import LccModel.Proto
 import LccModel.Model.Loader
 import LccModel.Model.LoaderSpec
 import LccModel.Model.DirScan
+import LccModel.Model.ParamSource
+import LccModel.Model.Reload
 open Lean LccModel LccModel.Proto LccModel.Loader LccModel.DirScan
 
 def getInt (j : Json) (k : String) : Except String Int := do
@@ -123,8 +125,15 @@ def parseTest (j : Json) : Except String TestDecl := do
     | .error _ => pure none
     | .ok .null => pure none
     | .ok p => do
-      let sets ← (← getArrD p "sets").mapM parseParams
-      pure (some (sets, ← parseNaming p)))
+      -- the source as written: `header` (a string: `parseHeader` finds the names) / `names` (tuple or list header) with
+      -- `rows`, or the dicts themselves (`sets`); what the loader expands is `Source.sets`
+      let rows ← (← getArrD p "rows").mapM (fun r => do (← r.getArr?).toList.mapM parsePVal)
+      let src ← (match p.getObjVal? "header" with
+        | .ok (.str h) => pure (LccModel.ParamSource.Source.csvStr h rows)
+        | _ => match p.getObjVal? "names" with
+          | .ok ns => do pure (LccModel.ParamSource.Source.csvSeq (← (← ns.getArr?).toList.mapM (fun x => x.getStr?)) rows)
+          | .error _ => do pure (LccModel.ParamSource.Source.dicts (← (← getArrD p "sets").mapM parseParams)))
+      pure (some (src.sets, ← parseNaming p)))
   pure { attr := ← getStr j "attr", name := ← getOptStr j "name", desc := ← getOptStr j "desc",
          rank := ← getInt j "rank", md := ← parseMeta j, vis := ← parseVis j,
          disabled := ← parseDisabled j, param }
@@ -267,6 +276,17 @@ def handle (j : Json) : Except String Json := do
     let ms := scanFiles fs
     let a := answer (loadRawFiles fs) (declFiles (stripModules ms)) (declFiles ms) (noDunderModules ms) none
     pure (a.setObjVal! "scan" (Json.arr (scanJ [] (.mk "suites" fs [])).toArray))
+  | "seq" =>
+    -- several loads in ONE process (`Model/Reload.lean`): each step = the path string handed to the loader and the directory
+    -- as it is on disk at that moment; the registry `sys.modules` is threaded through the steps
+    let steps ← (← getArrD j "steps").mapM (fun s => do
+      let r ← parseRawDir (← s.getObjVal? "dir")
+      pure (← getStr s "root", scanDir r))
+    let run := LccModel.Reload.runLoads {} steps
+    let answers := (steps.zip run.2).map (fun ((_, d), res) =>
+      answer res (declDir (stripDir d)) (declDir d) (noDunderDir d) none)
+    pure (Json.mkObj [("steps", Json.arr answers.toArray),
+                      ("registered", Json.arr (run.1.sysModules.map (fun e => Json.str e.1)).toArray)])
   | "scan" =>
     -- the decision alone, on a list of names
     let names ← (← getArrD j "names").mapM (fun n => n.getStr?)
